@@ -18,7 +18,7 @@ for d in sorted(glob.glob(os.path.join(ROOT, "seeded", "*"))):
 hdr = """### 9.5 Seeded changes and which checks catch them
 
 %d changes to txtpp were written by sub-agents that saw only the text of one property and a scratch worktree
-(thirteen rounds; the second asked for less obvious sites, the third and fourth (`"round"` in meta.json) for three mutually
+(fourteen rounds; the second asked for less obvious sites, the third and fourth (`"round"` in meta.json) for three mutually
 different mechanisms per property with narrow failing inputs, schedule-dependent ones included; the fifth and sixth were
 confined to the ENTRY LAYER - src/main.rs, lib.rs, config.rs, progress.rs, error.rs, shell.rs: how an invocation becomes a
 run and how its result is reported). Each was confirmed in a scratch worktree (`tools/confirm_seeds.sh`,
@@ -106,7 +106,18 @@ build / needed / verify over an output that already matches), `-N` comparing lin
 or the trailing option changed (C16: the identity job now also runs only-if-needed over an output left with the other
 line ending or a flipped final line ending). All caught now. (While adding the root-only request to the fault job, the
 clean mode raised a false alarm on the unchanged tree before anything was committed: clean does not follow dependencies -
-F5 - so a faulty leaf is rightly not reached; clean keeps the whole-directory request.)
+F5 - so a faulty leaf is rightly not reached; clean keeps the whole-directory request.) Round 14 (C01, C05-C07, C13, C15, C17, C18; free choice: the sub-agents were
+told what the harness already exercises and asked for a failing-input class outside it, with their reason in
+`meta.json` `why_missed`; 24 changes), first run without additions: 14 of 24 caught, ten missed - a CRLF whose CR and LF lie
+on the two sides of the 8 KiB reader buffer, the indentation of a continuation line inside a quoted command argument (C01), a
+verify that does not wait for dependencies on a cycle whose outputs are consistent (C05: the scenario existed at once but was
+drawn with the trailing setting under which verify fails anyway - it now runs with both), an appended byte after an output
+of exactly 64 KiB (C06), clean keeping a rejected prefix-less `temp` directive pending (C07), continuation lines re-examined as
+directives in collect mode (C15), a shell killed by a signal and a shell found through a relative PATH entry (C17), a command
+reading standard input while txtpp's own stdin is an open pipe and status lines shortened at a byte offset inside a
+multi-byte character (C18). Explicit scenarios for each (corner projects 1b and 16-19, the corner job now also in the checks
+of C05 and C07, output sizes at 64 KiB multiples in C06, a signal-killed command shape and a relative-PATH shell in C17, an
+open-stdin run and 24 long multi-byte paths with the progress display on in C18); all ten are caught now.
 
 | id | property | what the change does | caught by (quick tier) |
 |----|----------|----------------------|------------------------|
